@@ -1,7 +1,7 @@
 
 // ---------------------------------------------------------------------------------------------
 // verif_cex: small-scope exhaustive differential harnesses for src/validators/mod.rs
-// units: V10 V7s                   (see /verif/cex/README.md, /verif/cex/MAP.json)
+// units: V10 V7s V7m                 (see /verif/cex/README.md, /verif/cex/MAP.json)
 // This text is appended verbatim to a scratch copy of src/validators/mod.rs.
 // ---------------------------------------------------------------------------------------------
 #[cfg(test)]
@@ -706,6 +706,156 @@ mod verif_cex {
             "V7s",
             cases,
             "real sync validators; 1 block x all 32 rule subsets x {violating, satisfied}; all 32x32 pairs of rule subsets as two blocks of one file and as one block in each of two files; 400 random contexts of 2..=3 files x 1..=3 blocks; both entry points (run_sync_validators directly, detect_validators + run)",
+        );
+    }
+
+    // ----------------------------------------------------------------------------------------
+    // V7m: validators::run with BOTH sync and async validators (fakes with fixed outputs)
+    // ----------------------------------------------------------------------------------------
+
+    /// What a fake validator returns: None = Err, Some(list of (file, how many violations)).
+    type FakeOutput = Option<&'static [(&'static str, usize)]>;
+
+    const FAKE_OUTPUTS: [FakeOutput; 7] = [
+        None,
+        Some(&[]),
+        Some(&[("a.py", 1)]),
+        Some(&[("dir/b.py", 1)]),
+        Some(&[("a.py", 1), ("dir/b.py", 2)]),
+        Some(&[("a.py", 2)]),
+        Some(&[("only/async-or-sync.rs", 1)]),
+    ];
+
+    fn fake_result(id: &str, output: FakeOutput) -> anyhow::Result<HashMap<PathBuf, Vec<Violation>>> {
+        let Some(files) = output else {
+            return Err(anyhow::anyhow!("fake validator {id} failed"));
+        };
+        Ok(files
+            .iter()
+            .map(|(file, n)| {
+                (
+                    PathBuf::from(file),
+                    (0..*n)
+                        .map(|k| {
+                            Violation::new(
+                                ViolationRange::new(Position::new(1 + k, 1), Position::new(1 + k, 2)),
+                                format!("{id}#{k}"),
+                                "fake".to_string(),
+                                BlockSeverity::Error,
+                                None,
+                            )
+                        })
+                        .collect(),
+                )
+            })
+            .collect())
+    }
+
+    struct FakeSync {
+        id: String,
+        output: FakeOutput,
+    }
+
+    impl ValidatorSync for FakeSync {
+        fn validate(&self, _context: Arc<ValidationContext>) -> anyhow::Result<HashMap<PathBuf, Vec<Violation>>> {
+            fake_result(&self.id, self.output)
+        }
+    }
+
+    struct FakeAsync {
+        id: String,
+        output: FakeOutput,
+        yields: usize,
+    }
+
+    #[async_trait]
+    impl ValidatorAsync for FakeAsync {
+        async fn validate(&self, _context: Arc<ValidationContext>) -> anyhow::Result<HashMap<PathBuf, Vec<Violation>>> {
+            for _ in 0..self.yields {
+                tokio::task::yield_now().await;
+            }
+            fake_result(&self.id, self.output)
+        }
+    }
+
+    #[test]
+    fn cex_V7m() {
+        let context = Arc::new(ValidationContext::new(HashMap::new()));
+        let mut cases = 0u64;
+        let n = FAKE_OUTPUTS.len();
+        // every assignment of outputs to (0..=2 sync) + (0..=2 async) validators
+        for n_sync in 0..=2usize {
+            for n_async in 0..=2usize {
+                let total = n_sync + n_async;
+                for code in 0..n.pow(total as u32) {
+                    let mut c = code;
+                    let picks: Vec<usize> = (0..total)
+                        .map(|_| {
+                            let v = c % n;
+                            c /= n;
+                            v
+                        })
+                        .collect();
+                    // thin out the 4-validator layer: keep assignments that contain an async-only file or an error, and every 5th other
+                    if total == 4 && !(picks.contains(&0) || picks[2..].contains(&6) || code % 5 == 0) {
+                        continue;
+                    }
+                    let sync: Vec<Box<dyn ValidatorSync>> = (0..n_sync)
+                        .map(|i| Box::new(FakeSync { id: format!("sync{i}"), output: FAKE_OUTPUTS[picks[i]] }) as Box<dyn ValidatorSync>)
+                        .collect();
+                    let asyncs: Vec<Box<dyn ValidatorAsync>> = (0..n_async)
+                        .map(|i| Box::new(FakeAsync { id: format!("async{i}"), output: FAKE_OUTPUTS[picks[n_sync + i]], yields: (code + i) % 3 }) as Box<dyn ValidatorAsync>)
+                        .collect();
+                    // ---- oracle (C11 / C13): any failing validator fails the run; else every violation exactly once under its file ----
+                    let mut expected: Option<Vec<(String, String)>> = Some(Vec::new());
+                    for (i, p) in picks.iter().enumerate() {
+                        let id = if i < n_sync { format!("sync{i}") } else { format!("async{}", i - n_sync) };
+                        match (FAKE_OUTPUTS[*p], expected.as_mut()) {
+                            (None, _) => expected = None,
+                            (Some(files), Some(e)) => {
+                                for (file, k) in files {
+                                    for j in 0..*k {
+                                        e.push((file.to_string(), format!("{id}#{j}")));
+                                    }
+                                }
+                            }
+                            _ => {}
+                        }
+                    }
+                    if let Some(e) = expected.as_mut() {
+                        e.sort();
+                    }
+                    let result = run(Arc::clone(&context), sync, asyncs);
+                    cases += 1;
+                    let observed: Option<Vec<(String, String)>> = result.as_ref().ok().map(|m| {
+                        let mut v: Vec<(String, String)> = m.iter().flat_map(|(f, vs)| vs.iter().map(move |x| (f.display().to_string(), x.code.clone()))).collect();
+                        v.sort();
+                        v
+                    });
+                    // files with no violation may be absent or present with an empty list; compare the violations only
+                    if expected != observed {
+                        let describe = |p: &usize| match FAKE_OUTPUTS[*p] {
+                            None => json!("Err"),
+                            Some(files) => json!(files.iter().map(|(f, k)| json!({"file": f, "violations": k})).collect::<Vec<_>>()),
+                        };
+                        cex_fail(
+                            "V7m",
+                            "validators::run with sync and async validators: an Err from any validator fails the run; otherwise the merged map holds every violation of every validator exactly once under its file - also for files that only an async validator reports",
+                            json!({
+                                "sync_validators_return": picks[..n_sync].iter().map(describe).collect::<Vec<_>>(),
+                                "async_validators_return": picks[n_sync..].iter().map(describe).collect::<Vec<_>>(),
+                            }),
+                            json!(expected.map_or(json!({"error": "any"}), |e| json!(e))),
+                            json!(match &result { Err(e) => json!({"error": e.to_string()}), Ok(_) => json!(observed) }),
+                        );
+                    }
+                }
+            }
+        }
+        cex_none(
+            "V7m",
+            cases,
+            "fake validators with fixed outputs: 0..=2 sync x 0..=2 async validators, each returning one of {Err, nothing, 1 on a.py, 1 on dir/b.py, 1+2 on both, 2 on a.py, 1 on a file nobody else reports}; all assignments up to 3 validators, the 4-validator layer thinned (all with an error or an async-only file, every 5th other); async fakes yield 0..=2 times before answering",
         );
     }
 }
